@@ -267,6 +267,20 @@ def h_meta(cls_name, m):
         if isinstance(key, str) and key.isidentifier():
             yield 'update(kw)', lambda o: o.update(**{key: 1})
             yield 'constructor(kw)', lambda o: cls(**{key: 1})
+    # every VALID key (aliases included) through every entry point: stored under its documented name, readable, nothing else stored
+    for key in valid:
+        for ename, f in entries(key):
+            o = cls()
+            try:
+                r = f(o)
+            except REJECT:
+                m.require(f'{cls_name}: valid key {key!r} via {ename} is accepted', False)
+                continue
+            held = [x for x in (r, o) if isinstance(x, cls) and len(x)]
+            target = held[0] if held else o
+            kk = cls.key_mapping.get(key, key)
+            m.require(f'{cls_name}: valid key {key!r} via {ename} is stored under its documented name only',
+                      set(target) == {kk} and target[key] == 1 and target[kk] == 1)
     for key in BAD_KEYS:
         for ename, f in entries(key):
             o = cls({'label': 'x'} if cls_name == 'RegionMeta' else {'color': 'x'})
